@@ -86,6 +86,17 @@ class ArrC:
         return NR(self.vals[i], False if self.nans is None else self.nans[i])
 
 
+class Arr2C:
+    """content of a numeric 2-D array: z3 function (i, j) -> Real and the two extents"""
+    __slots__ = ('f', 'n0', 'n1')
+
+    def __init__(self, f, n0, n1):
+        self.f, self.n0, self.n1 = f, n0, n1        # f: python callable (i, j) -> z3 Real term
+
+    def at(self, i, j):
+        return self.f(i, j)
+
+
 class ListC:
     __slots__ = ('items',)
 
@@ -219,6 +230,17 @@ class TArr(Sort):
             k = fresh('k', I)
             st.assume(z3.ForAll([k], z3.IsInt(c.vals[k])))
         return st.new_ref(c, name)
+
+
+class TArr2(Sort):
+    def __init__(self, n0=None, n1=None):
+        self.n0, self.n1 = n0, n1
+
+    def make(self, st, name):
+        n0 = self.n0 if self.n0 is not None else fresh(name + '.n0', I)
+        n1 = self.n1 if self.n1 is not None else fresh(name + '.n1', I)
+        fn = z3.Function(name + '!' + str(next(_counter)), I, I, R)
+        return st.new_ref(Arr2C(lambda i, j: fn(i, j), n0, n1), name)
 
 
 class TSeq(Sort):
